@@ -10,7 +10,7 @@
    readable (files_readable). *)
 From Coq Require Import List ZArith Bool.
 From PyrexModel Require Import IOModel.
-From PyrexProofs Require Import IO_writer IO_reader C11_proofs C12_proofs.
+From PyrexProofs Require Import IO_writer IO_reader C11_proofs C12_proofs IO_filegen.
 Import ListNotations.
 Open Scope Z_scope.
 
@@ -77,14 +77,25 @@ Theorem reopen_recovers_counters : forall st, inv st -> reopen st = st.
 Proof. exact reopen_id. Qed.
 Print Assumptions reopen_recovers_counters.
 
-(* FileGenerator: each chunk it loads is the sequential stream of the current file (the full
-   replay statement C12_proofs.filegen_replays_statement is validated by correspondence only) *)
-Theorem filegen_chunk_partial : forall f k ei, readable f -> 1 <= k -> 0 <= ei < n_events f ->
-  let stop := if n_events f <? ei + k then n_events f else ei + k in
-  getitem_slice f (Some k) (Some ei) (Some stop) None =
-  inr (spec_events f (map (fun j => ei + j) (zseq (stop - ei)))).
-Proof. exact filegen_chunk_lemma. Qed.
-Print Assumptions filegen_chunk_partial.
+(* FileGenerator(files, slice_range=k) followed by create_event() until it raises: for every list
+   of replayable files (readable, particles dataset non-empty) and every k >= 1 the calls return,
+   in order across files and chunks, every stored event's particles together with the running
+   count (thrown total of the completed files + the proportional count inside the current file,
+   exact integer arithmetic), the count after the last event is the sum of the files'
+   total_thrown, and the next call raises StopIteration *)
+Theorem filegen_replays : forall files k, 1 <= k -> Forall gen_ok files -> files <> [] ->
+  exists items, filegen files k = inr (items, Some EStop) /\
+    items = all_items 0 files /\
+    map fst items = flat_map (fun f => map (particle_tags_of f) (zseq (n_events f))) files /\
+    (forall d, snd (last items d) = sumtv files).
+Proof. exact filegen_replays_full. Qed.
+Print Assumptions filegen_replays.
+
+(* files written by any add/reopen history are replayable once an accepted add recorded a particle *)
+Theorem files_replayable : forall o d hd ops, records_particles o = true ->
+  1 <= n_events (run o d hd ops) -> get (rowsOf (run o d hd ops)) P <> [] -> gen_ok (run o d hd ops).
+Proof. exact run_gen_ok. Qed.
+Print Assumptions files_replayable.
 
 (* non-vacuity: a 4-event file written in two sessions with a rejected add in between *)
 Theorem example_file : readable (run ex12_opts 2 true ex12_ops) /\ n_events (run ex12_opts 2 true ex12_ops) = 4.
